@@ -164,6 +164,17 @@ func TestC10(t *testing.T) {
 	}})
 }
 
+// life cycle of gang applications: swaps in flight while the other allocations of the application come and go
+func TestC10Gang(t *testing.T) {
+	runWorld(t, worldCheck{prop: "C10", check: "C10/world-gang", profile: func() *harness.Profile {
+		p := gangProfile()
+		p.Weights = harness.With(p.Weights, map[string]int{harness.OpRelease: 12, harness.OpFireState: 4, harness.OpRemoveApp: 2})
+		return p
+	}, nonTriv: func(w *harness.World) bool {
+		return w.Tags["app-4-states"] > 0 && w.Tags["confirm-PLACEHOLDER_REPLACED"] > 0
+	}})
+}
+
 func TestC11(t *testing.T) {
 	runWorld(t, worldCheck{prop: "C11", check: "C11/world", profile: churnAppsProfile, nonTriv: func(w *harness.World) bool {
 		return w.Tags["c11-gate-on-ancestor"] > 0 || w.Tags["c11-gate-evaluated"] > 1
